@@ -979,6 +979,7 @@ class Config:  # pylint: disable=too-many-instance-attributes
         self._fields: Dict[str, BaseField] = OrderedDict()
         self._key = schema._key
         self.__keyfile = None  # type: Optional[KeyFile]
+        self.__default_keyfile = None  # type: Optional[KeyFile]
         self._default_value_keys: Set[str] = set()
 
         if key_filename:
@@ -1026,7 +1027,11 @@ class Config:  # pylint: disable=too-many-instance-attributes
                 # This will bubble up to the root config. The ancestor's key file is not cached
                 # here: the ancestor may be given another key file later.
                 return self._parent._keyfile
-            self.__keyfile = KeyFile(Config.DEFAULT_CINCOKEY_FILEPATH)
+            # The default key file is kept apart from a key file named on this configuration,
+            # so that it is dropped as soon as the configuration gets a parent.
+            if not self.__default_keyfile:
+                self.__default_keyfile = KeyFile(Config.DEFAULT_CINCOKEY_FILEPATH)
+            return self.__default_keyfile
         return self.__keyfile
 
     def _get_field(self, key: str) -> Optional[BaseField]:
